@@ -251,6 +251,21 @@ def check_case(case, common, out):
                 bump(out, "C18.overwrite:refused", sig0, rule="writing over the dataset the same query reads")
                 if not raised:
                     viol(out, "C18.overwrite:not-refused", sig0, "to_parquet(path, overwrite=True) of a query reading path did not raise", replay)
+                # the query reads a single FILE inside the directory that is overwritten
+                inner = sorted(f for f in os.listdir(path) if f.endswith(".parquet"))[0]
+                one = dx.read_parquet(os.path.join(path, inner), **kw)
+                raised = False
+                failed = ""
+                try:
+                    one.assign(z=1).to_parquet(path, overwrite=True)
+                except ValueError:
+                    raised = True
+                except Exception as ex:  # the guard let it through and the inputs were deleted under the query
+                    failed = f" and failed with {type(ex).__name__}: {str(ex)[:100]}"
+                bump(out, "C18.overwrite:refused", f"{sig0}|reads-a-file-inside", rule="writing over the dataset the same query reads")
+                if not raised:
+                    viol(out, "C18.overwrite:not-refused", f"{sig0}|reads-a-file-inside", f"to_parquet(dir, overwrite=True) of a query reading {inner} inside dir was not refused{failed}", replay)
+                    write_dataset(path, pdf, pieces, order)  # restore for the checks below
                 pdf2 = pdf.copy()
                 pdf2["u"] = pdf2["u"] + 5000
                 pdf2.index = pdf.index if kind in ("unnamed", "str", "dups") else (pdf.index + (pdf.index.max() - pdf.index.min()) * 2 if kind == "named" else pdf.index + pd.Timedelta(days=400))
